@@ -116,6 +116,23 @@ def run(check):
                 if any(y is w for y in jsast.walk(fn_)):
                     a0 = jsast.ident_name(call_args(w)[0]) if call_args(w) else None
                     ok = kind in ("set", "delete") and a0 == params[0]
+                    # a conditional write may only depend on the truthiness of the content parameter
+                    for gstmt in jsast.walk(fn_["body"]):
+                        if gstmt.get("type") == "IfStatement" and any(y is w for y in jsast.walk(gstmt["consequent"])):
+                            ok = ok and jsast.ident_name(gstmt["test"]) in params[1:2]
+                        if gstmt.get("type") == "IfStatement" and gstmt.get("alternate") and any(y is w for y in jsast.walk(gstmt["alternate"])):
+                            ok = False
+                    if kind == "set" and len(params) > 1:
+                        # the stored map is generated from the content parameter
+                        val = call_args(w)[1] if len(call_args(w)) > 1 else None
+                        vname = jsast.ident_name(val)
+                        gen = [d for d in jsast.walk(fn_["body"]) if d.get("type") == "VariableDeclarator" and jsast.ident_name(d["id"]) == vname]
+                        src_ok = False
+                        for d in gen:
+                            init = d.get("init") or {}
+                            if init.get("type") == "CallExpression" and callee_name(init) == ["generateSourceMapFromFileContent"] and jsast.ident_name(call_args(init)[0]) == params[1]:
+                                src_ok = True
+                        ok = ok and src_ok
                     c.expect(ok, R2, "%s/write/%s" % (R2, name), sm.loc(w), "%s: cache.%s(%s, ..)" % (name, kind, a0), "%s writes the cache with %s(%s)" % (name, kind, a0))
                     updaters[name] = kind
         outside = [w for w, k in writes if not any(any(y is w for y in jsast.walk(fn_)) for fn_ in jsast.walk(sm.program) if fn_.get("type") == "FunctionDeclaration")]
@@ -141,6 +158,21 @@ def run(check):
         cls = main.class_decl("CacheRewriter")
         m = main.method(cls, "rewrite")
         params = [jsast.param_name(p) for p in m["function"]["params"]]
+        # names bound to response.content
+        content_names = set()
+        resp_names = set()
+        for d in jsast.walk(m["function"]["body"]):
+            if d.get("type") == "VariableDeclarator" and d.get("init"):
+                init = d["init"]
+                if init.get("type") == "CallExpression" and callee_name(init) == ["super", "rewrite"]:
+                    resp_names.add(jsast.ident_name(d["id"]))
+        for d in jsast.walk(m["function"]["body"]):
+            if d.get("type") == "VariableDeclarator" and d.get("init") and d["id"].get("type") == "ObjectPattern" and jsast.ident_name(d["init"]) in resp_names:
+                for pp in d["id"]["properties"]:
+                    if pp.get("type") == "AssignmentPatternProperty" and pp["key"]["value"] == "content":
+                        content_names.add("content")
+                    elif pp.get("type") == "KeyValuePatternProperty" and pp["key"].get("value") == "content":
+                        content_names.add(jsast.ident_name(pp["value"]))
         paths = js_paths(m["function"]["body"]["stmts"])
         n_ret = 0
         sup_ok = False
@@ -156,6 +188,10 @@ def run(check):
                         sup_ok = [jsast.ident_name(a) for a in call_args(x)] == params[:2]
                     if ch and len(ch) == 1 and ch[0] in updaters and (imported.get(ch[0]) or "").rstrip("/").endswith("js/source-map"):
                         a0 = jsast.ident_name(call_args(x)[0]) if call_args(x) else None
+                        if updaters[ch[0]] == "set":
+                            a1 = jsast.ident_name(call_args(x)[1]) if len(call_args(x)) > 1 else None
+                            from_resp = a1 in content_names
+                            c.expect(from_resp, R2, R2 + "/content-arg", main.loc(x), "the map is generated from the response's content", "the cached map is generated from `%s`, not from the rewritten content of the response" % a1)
                         upd.append((ch[0], a0))
             branch = [("%s=%s" % ((jsast.strict_eq_literal(x["test"]) or (None, "?"))[1], x["taken"])) for x in p if x.get("type") == "Branch"]
             key = "%s/path/%s" % (R2, ",".join(branch) or "straight")
